@@ -22,7 +22,7 @@ LEVEL = 'exploration'
 SHARDS = {'quick': 16, 'thorough': 16}
 FLOOR = {'quick': 1500, 'thorough': 20000}
 REQUIRED_MONITORS = {'model-compared': 5000, 'handled-failures': 1500, 'error-variable-compared': 300,
-                     'metal-shapes-compared': 300}
+                     'metal-shapes-compared': 300, 'fallback-start-tags-compared': 500}
 RULE = ('a case = (program with on-error on a random subset of elements, depth <= 3 (quick) / 4 (thorough), binding table, '
         'failure set of 1..2 raising expression occurrences chosen among ALL occurrences incl. fallback expressions); '
         'non-trivial iff >=1 failure is raised inside an on-error element (per the model); distinct by (handler nesting '
@@ -129,6 +129,7 @@ def run(ctx):
                               {'kind': 'model', 'src': src, 'table': {str(k): v for k, v in table.items()}, 'model': w})
     layer_error_variable(ctx, 30 if ctx.quick else 500)
     layer_metal(ctx, 40 if ctx.quick else 600)
+    layer_start_tag_options(ctx, 40 if ctx.quick else 800)
 
 
 def layer_error_variable(ctx, n):
@@ -169,6 +170,54 @@ def layer_error_variable(ctx, n):
         if out != want or len(calls) != 1 or type(calls[0]).__name__ != exc:
             ctx.violation('error-variable', 'template %r failing with %s\n  rendered %r (handler calls %r)\n  expected %r' % (
                 src, exc, out, calls, want), {'kind': 'errvar', 'src': src})
+
+
+
+def layer_start_tag_options(ctx, n):
+    """The fallback is wrapped in the element's start tag with its static attributes: for start tags with arbitrary
+    lexical detail and under the options that touch start tags, that is the very text the element's start tag has
+    when nothing fails (metamorphic: same template, body failing / not failing)."""
+    from chameleon import PageTemplate
+    rng = ctx.rng
+    WS = [' ', '  ', '\n', '\n    ', '\t', ' \n ']
+    ATTRS = ['class="c"', "id='x'", 'data-k=v7', 'hidden', 'title="a &amp; b"', 'xml:lang="en"', 'Style="x:y"', "alt='&quot;q&quot;'",
+             'href=/a/b.c', 'lang=""']
+    for case in range(n):
+        attrs = rng.sample(ATTRS, rng.randint(0, 4))
+        stmt = 'tal:on-error="%s"' % rng.choice(['string:E', "structure '<b>E</b>'", "'E'"])
+        parts = attrs + [stmt]
+        if rng.random() < .4:
+            parts.append(rng.choice(['tal:define="q 1"', 'tal:condition="True"', 'i18n:domain="d"']))
+        rng.shuffle(parts)
+        tag = rng.choice(['div', 'p', 'x-y', 'SPAN'])
+        start = '<' + tag + ''.join(rng.choice(WS) + a for a in parts) + rng.choice(['', '', ' ', '\n', '\n  ', '\t']) + '>'
+        src = rng.choice(['', 'pre ', '<o>\n  ']) + start + 'body ${f(1)} <i>k</i>' + '</%s>' % tag + ' post'
+        cfg = rng.choice([{}, {'trim_attribute_space': True}, {'trim_attribute_space': True}, {'boolean_attributes': {'hidden'}},
+                          {'enable_data_attributes': True}, {'trim_attribute_space': True, 'enable_data_attributes': True}])
+        if src.startswith('<o>'):
+            src += '</o>'
+        outs = {}
+        for fail in (False, True):
+            def f(i, fail=fail):
+                if fail:
+                    raise KeyError(i)
+                return 'v'
+            try:
+                outs[fail] = PageTemplate(src, **cfg)(f=f)
+            except Exception as e:
+                outs[fail] = 'RAISED %s: %s' % (type(e).__name__, str(e).split('\n')[0][:80])
+        ctx.mon('fallback-start-tags-compared')
+        ctx.case(key=('starttag', len(attrs), tuple(sorted(cfg)), '\n' in start, start.endswith(('\n>', ' >', '\t>', '  >'))), nontrivial=True)
+        ok, bad = outs[False], outs[True]
+        i = ok.find('<' + tag)
+        j = ok.find('>', i)
+        st = ok[i:j + 1]
+        fb = 'E' if "'<b>" not in stmt else '<b>E</b>'
+        want = ok[:i] + st + fb + '</%s>' % tag + ok[ok.index('</%s>' % tag) + len(tag) + 3:]
+        if i < 0 or ok.startswith('RAISED') or bad != want:
+            ctx.violation('fallback-start-tag-differs-from-regular-start-tag',
+                          'template %r options %r\n  body succeeds: %r\n  body fails:    %r\n  expected:      %r' % (src, cfg, ok, bad, want),
+                          {'kind': 'starttag', 'src': src, 'cfg': {k: (sorted(v) if isinstance(v, set) else v) for k, v in cfg.items()}})
 
 
 def layer_metal(ctx, n):
@@ -256,6 +305,21 @@ def classify(root, table, got, want, groups):
 
 
 def replay(data):
+    if data.get('kind') == 'starttag':
+        from chameleon import PageTemplate
+        cfg = dict(data.get('cfg') or {})
+        if 'boolean_attributes' in cfg:
+            cfg['boolean_attributes'] = set(cfg['boolean_attributes'])
+
+        def boom(i):
+            raise KeyError(i)
+        ok = PageTemplate(data['src'], **cfg)(f=lambda i: 'v')
+        bad = PageTemplate(data['src'], **cfg)(f=boom)
+        st = ok[ok.find('<', ok.find('<o>') + 1 if '<o>' in ok else 0):]
+        st = st[:st.find('>') + 1]
+        return st not in bad, 'source %r options %r\nbody succeeds: %r\nbody fails:    %r' % (data['src'], cfg, ok, bad)
+    if 'table' not in data:
+        return True, 're-run ./vcheck C13 with the same seed; case: %r' % (data,)
     table = {int(k): (tuple(v) if isinstance(v, list) else v) for k, v in data['table'].items()}
     got = tmodel.run_real(data['src'], table)
     m = data['model']
